@@ -33,6 +33,8 @@ func runC14(p *Prog, r *Report) {
 	} else {
 		r.Anchor("C14.R4", "ratelimit.TokenLimiter", "type not found")
 	}
+	// R6: one source's request cannot block the others: a critical section of a limiter that may run user-supplied code is released by defer (shared with C09.R8)
+	r.Floor("C14.R6", c09PanicSafe(p, r, "C14.R6", "ratelimit")+c09PanicSafe(p, r, "C14.R6", "collections"), 2, "critical sections of the limiters that may run user code")
 	// R5: the built-in source token is injective on peers: two distinct peers never share limiter state (shared with C19.R1)
 	r.Borrow(p, runC19, map[string]string{"C19.R1": "C14.R5", "C19.R2": "C14.R5"}, nil)
 }
